@@ -1084,6 +1084,14 @@ class OpsMixin:
                 return {"|": a_ | b_, "&": a_ & b_, "-": a_ - b_, "^": a_ ^ b_}[op]
             except TypeError:
                 return Unknown("set operation on unhashable items")
+        if op == "%" and isinstance(a, SymStr):
+            # a text that is not a constant used as a format string: whatever % signs it contains are conversion
+            # specifiers now (a stray one raises ValueError / TypeError, a well-formed one consumes an argument)
+            if self.decide("the text %s contains a %% sign" % (self.name_of(a),), node, frame):
+                self.event("format-of-dynamic-text", text=a, where=frame.where(node), node=node)
+                raise PyRaise(Instance(self.bclasses["ValueError"], ("unsupported format character / incomplete format in a text that is not a constant",)),
+                              node, frame.where(node))
+            return SymStr(("%", a.name))
         if op == "|" and isinstance(a, dict) and isinstance(b, dict) and "**" not in a and "**" not in b:
             r = dict(a)
             r.update(b)                # dict | dict: a new dictionary, the right operand's values win
